@@ -159,41 +159,64 @@ def window_allowed(poly_status):
 # ---------------------------------------------------------------------------
 # set_use_caps
 # ---------------------------------------------------------------------------
+TOL_BAND = 1e-9      # relative band around "distance == tol" / "|cm difference| == tol" inside which nothing is asserted
+
+
 def use_caps_ref(xs, cms, index_list, old_mask=0, add=False, tol=1e-10,
                  allow_doubles=False, allow_neg_doubles=False):
-    """Expected use mask, and whether any cap pair sits within a factor 4 of a tolerance (ambiguous).
+    """Expected use mask, and a reason (non-empty string) if the case must not be asserted.
 
     Selected = bits of index_list (| old mask when add).  Unless allow_doubles, walking i upwards, every
-    still-selected later cap j that duplicates the still-selected cap i is removed: centres closer than
-    tol (Euclidean) and (|cm_i - cm_j| < tol, or |cm_i + cm_j| < tol unless allow_neg_doubles).
+    still-selected later cap j that duplicates the still-selected cap i is removed.  j duplicates i when the
+    EUCLIDEAN distance of the centres is < tol and (|cm_i - cm_j| < tol, or |cm_i + cm_j| < tol unless
+    allow_neg_doubles) - the rule set_use_caps documents and the unchanged code implements as
+    sum((x_i-x_j)**2) < tol**2.  Evaluated in long double on the stored binary values.  pydl's double
+    evaluation of the same quantities is accurate to ~5e-16 relative (the difference of two nearby doubles is
+    exact, three squares, two additions, tol**2), so a pair is ambiguous only when a quantity is within
+    TOL_BAND = 1e-9 (relative) of tol: margin 1e6.
+    A second reading of "later duplicates of a selected cap" (j dropped if it duplicates ANY earlier requested
+    cap, even one that was itself dropped) is evaluated too; if the two readings differ (tolerance relation not
+    transitive on this input) the case is not asserted.
     """
-    xs = np.asarray(xs).astype(LD)
-    cms = np.asarray(cms).astype(LD)
+    xs = np.asarray(xs).astype(LD).reshape(-1, 3)
+    cms = np.asarray(cms).astype(LD).reshape(-1)
     n = len(cms)
     mask = int(old_mask) if add else 0
     for i in index_list:
         mask |= 1 << int(i)
-    ambiguous = False
     if allow_doubles:
-        return mask, ambiguous
+        return mask, ''
     t = LD(tol)
-
-    def close(v):
-        nonlocal ambiguous
-        if t / 4 < v < t * 4:
-            ambiguous = True
-        return v < t
-    for i in range(n):
-        if not (mask >> i) & 1:
+    sel = [k for k in range(n) if (mask >> k) & 1]
+    if len(sel) < 2:
+        return mask, ''
+    X = xs[sel]
+    C = cms[sel]
+    diff = X[:, None, :] - X[None, :, :]
+    dist = np.sqrt((diff ** 2).sum(axis=2))
+    dsame = np.abs(C[:, None] - C[None, :])
+    dtwin = np.abs(C[:, None] + C[None, :])
+    lo, hi = t * (1 - LD(TOL_BAND)), t * (1 + LD(TOL_BAND))
+    iu = np.triu_indices(len(sel), 1)
+    near_x = (dist > lo) & (dist < hi)
+    near_c = (dist < hi) & (((dsame > lo) & (dsame < hi)) | ((dtwin > lo) & (dtwin < hi)))
+    if bool((near_x | near_c)[iu].any()):
+        return mask, 'a centre distance or cm difference is within 1e-9 (relative) of tol'
+    dup = (dist < t) & ((dsame < t) | ((dtwin < t) & (not allow_neg_doubles)))
+    # reading 1 (the code's): walk upwards, only still-selected caps knock out later ones
+    alive = [True] * len(sel)
+    for a in range(len(sel)):
+        if not alive[a]:
             continue
-        for j in range(i + 1, n):
-            if not (mask >> j) & 1:
-                continue
-            dist = np.sqrt(((xs[i] - xs[j]) ** 2).sum())
-            if not close(dist):
-                continue
-            same = close(abs(cms[i] - cms[j]))
-            twin = close(abs(cms[i] + cms[j]))
-            if same or (twin and not allow_neg_doubles):
-                mask &= ~(1 << j)
-    return mask, ambiguous
+        for b in range(a + 1, len(sel)):
+            if alive[b] and dup[a, b]:
+                alive[b] = False
+    # reading 2: any earlier requested cap knocks out a later duplicate
+    alive2 = [not bool(dup[:b, b].any()) for b in range(len(sel))]
+    out = mask
+    for b, k in enumerate(sel):
+        if not alive[b]:
+            out &= ~(1 << k)
+    if alive != alive2:
+        return out, 'duplicate relation not transitive here: the two readings of "later duplicates" differ'
+    return out, ''
